@@ -138,6 +138,25 @@ def gen(tier, seed):
     add("static", {"v": 3}, "call stamp(a(1))\ncall stamp(a(2))",
         "subroutine stamp(x)\n  real(kind=wp), intent(inout) :: x\n  integer, save :: ncalls\n  ncalls = ncalls + 1\n"
         "  x = x + ncalls\nend subroutine stamp")
+    # RETURN statements in the callee: trailing at top level, trailing inside a branch, inside a loop, early
+    add("ret", {"v": 1}, "call sub(a, n, t, k)",
+        "subroutine sub(x, nn, tt, pos)\n  integer, intent(in) :: nn\n  real(kind=wp), dimension(nn), intent(in) :: x\n"
+        "  real(kind=wp), intent(in) :: tt\n  integer, intent(out) :: pos\n  integer :: kk\n  pos = 0\n  do kk = 1, nn\n"
+        "    if (x(kk) > tt) then\n      pos = kk\n      return\n    end if\n  end do\nend subroutine sub")
+    add("ret", {"v": 2}, "call sub(a, n, t, k)",
+        "subroutine sub(x, nn, tt, pos)\n  integer, intent(in) :: nn\n  real(kind=wp), dimension(nn), intent(in) :: x\n"
+        "  real(kind=wp), intent(in) :: tt\n  integer, intent(out) :: pos\n  pos = 0\n  if (x(1) > tt) then\n    pos = 1\n"
+        "    return\n  end if\nend subroutine sub")
+    add("ret", {"v": 3}, "call sub(t, r)\nq = r",
+        "subroutine sub(x, y)\n  real(kind=wp), intent(in) :: x\n  real(kind=wp), intent(inout) :: y\n  y = y + x\n  return\nend subroutine sub")
+    add("ret", {"v": 4}, "call sub(t, r)\nq = r",
+        "subroutine sub(x, y)\n  real(kind=wp), intent(in) :: x\n  real(kind=wp), intent(inout) :: y\n  if (x > 0.0_wp) return\n"
+        "  y = y + x\nend subroutine sub")
+    add("ret", {"v": 5}, "do i = lo, hi\n  call sub(a, n, b(i), k)\n  c(i) = k\nend do",
+        "subroutine sub(x, nn, tt, pos)\n  integer, intent(in) :: nn\n  real(kind=wp), dimension(nn), intent(in) :: x\n"
+        "  real(kind=wp), intent(in) :: tt\n  integer, intent(out) :: pos\n  integer :: kk\n  pos = 0\n  kk = 1\n"
+        "  do while (kk <= nn)\n    if (x(kk) > tt) then\n      pos = kk\n      return\n    end if\n    kk = kk + 1\n  end do\n"
+        "end subroutine sub")
     add("static", {"v": 4}, "call stamp(a(1))\ncall stamp(a(2))",
         "subroutine stamp(x)\n  real(kind=wp), intent(inout) :: x\n  integer, parameter :: inc = 2\n  x = x + inc\nend subroutine stamp")
     # --- named / reordered / optional arguments
